@@ -286,14 +286,18 @@ func genTilingLayout(t *rapid.T, slices []int) []Item {
 	return addNoise(t, items)
 }
 
-func genRF(t *rapid.T, hint int, flight bool) RF {
+func genRF(t *rapid.T, hint int, flight bool, arbitrary bool) RF {
 	u8 := func(lo, hi int, label string) uint8 { return uint8(rapid.IntRange(lo, min(hi, 255)).Draw(t, label)) }
 	var r RF
 	minC := 1
 	if flight {
 		minC = 0
 	}
-	switch rapid.IntRange(0, 11).Draw(t, "rfmode") {
+	hi := 8
+	if arbitrary {
+		hi = 11
+	}
+	switch rapid.IntRange(0, hi).Draw(t, "rfmode") {
 	case 0, 1, 2, 3: // the shape the parrots use
 		r.MinPING = u8(0, 4, "minping")
 		r.MaxPING = r.MinPING + u8(0, 8, "dping")
@@ -391,8 +395,16 @@ func genRanges(t *rapid.T, l int) (perDatagram [][]Range) {
 	if len(all) > 1 {
 		all = rapid.Permutation(all).Draw(t, "rangeorder")
 	}
-	for _, r := range all {
-		d := rapid.IntRange(0, nd-1).Draw(t, "datagram")
+	// normally every datagram gets at least one range (a datagram without ranges is an error case)
+	if rapid.IntRange(0, 7).Draw(t, "allow-empty-datagram") != 0 {
+		nd = min(nd, max(1, len(all)))
+		perDatagram = perDatagram[:nd]
+	}
+	for i, r := range all {
+		d := i
+		if i >= nd || len(perDatagram) != nd {
+			d = rapid.IntRange(0, len(perDatagram)-1).Draw(t, "datagram")
+		}
 		perDatagram[d] = append(perDatagram[d], r)
 	}
 	return perDatagram
@@ -486,7 +498,7 @@ func genBCase(t *rapid.T) BCase {
 	case "random":
 		c.Base = genBase(t, c.L)
 		c.Slices = genSlices(t, c.L)
-		c.RFs = []RF{genRF(t, c.Slices[0], false)}
+		c.RFs = []RF{genRF(t, c.Slices[0], false, true)}
 		if len(c.Slices) == 1 && c.Base == 0 {
 			c.UseB = rapid.Bool().Draw(t, "use-build")
 		}
@@ -496,7 +508,7 @@ func genBCase(t *rapid.T) BCase {
 		c.Slices = genSlices(t, c.L)
 		n := rapid.SampledFrom([]int{0, 1, 1, 2, 2, 3, 4}).Draw(t, "nper")
 		for i := 0; i < n; i++ {
-			c.RFs = append(c.RFs, genRF(t, c.Slices[min(i, len(c.Slices)-1)], false))
+			c.RFs = append(c.RFs, genRF(t, c.Slices[min(i, len(c.Slices)-1)], false, i == 0 || rapid.IntRange(0, 3).Draw(t, "arb") == 0))
 		}
 		c.Idx0 = rapid.SampledFrom([]int{0, 0, 0, 0, 1, 3, 1 << 30, math.MaxInt - 8}).Draw(t, "idx0")
 		if len(c.Slices) == 1 && c.Base == 0 && c.Idx0 == 0 {
@@ -519,9 +531,7 @@ func genBCase(t *rapid.T) BCase {
 				items = append(items, Item{T: "c", Off: r.Off, Len: r.Len, Ptr: rapid.Bool().Draw(t, "ptr")})
 			}
 			// frame order inside a datagram is part of the layout: keep the drawn order, add PING/PADDING anywhere
-			n := len(items)
 			items = addNoise(t, items)
-			_ = n
 			c.Flight = append(c.Flight, items)
 		}
 		c.Budgets = genBudgets(t, len(per))
@@ -531,14 +541,18 @@ func genBCase(t *rapid.T) BCase {
 		if rapid.IntRange(0, 19).Draw(t, "no-datagrams") == 0 {
 			per = nil
 		}
-		for _, rs := range per {
+		arb := -1
+		if len(per) > 0 && rapid.IntRange(0, 2).Draw(t, "arb") == 0 {
+			arb = rapid.IntRange(0, len(per)-1).Draw(t, "arb-datagram") // every field value on at most one datagram
+		}
+		for i, rs := range per {
 			hint := c.L
 			if len(rs) > 0 {
 				if s, e, ok := rs[0].resolve(c.L); ok {
 					hint = e - s
 				}
 			}
-			c.RFlight = append(c.RFlight, RFD{Ranges: rs, Frames: genRF(t, hint, true)})
+			c.RFlight = append(c.RFlight, RFD{Ranges: rs, Frames: genRF(t, hint, true, i == arb)})
 		}
 		c.Budgets = genBudgets(t, len(per))
 		c.Reps = genReps(t, false, c.L)
@@ -884,15 +898,9 @@ func checkB(c BCase, u *vf.Unit) *vf.Verdict {
 			}
 		}
 		checkDG := func(what string, d int, payload []byte, rep int) *vf.Verdict {
-			var w []span
+			var w []span // nil when a range of this datagram is out of bounds: clamped-but-truthful is all that is required
 			if d < len(want) {
-				w = want[d] // nil when a range of this datagram is out of bounds: clamped-but-truthful is all that is required
-				if w == nil && d < len(dgValid) && !dgValid[d] {
-					w = nil
-				}
-			}
-			if w != nil && len(w) == 0 {
-				w = []span{} // declared coverage is empty: no byte may be emitted
+				w = want[d]
 			}
 			if v := checkPayload(area, payload, data, 0, w, &o); v != nil {
 				v.Detail = fmt.Sprintf("%s, datagram %d, draw %d: %s", what, d, rep, v.Detail)
